@@ -85,15 +85,29 @@ SameBut(m, o) ==
        /\ \A s \in f.samples : \A t \in g.samples :
             (s.sfx = t.sfx /\ s.unit = t.unit /\ s.labels = t.labels) =>
               IF f.type \in {"histogram", "summary"} THEN t.val <= s.val ELSE t.val = s.val
-\* CF05a loses at most one sample per (recording thread, detach of the bucket) pair
-LossBounded(m, o, bound) ==
-  \A f \in m : \A g \in o : f.name = g.name =>
-    \A s \in f.samples : \A t \in g.samples :
-      (s.sfx = "count" /\ t.sfx = "count" /\ s.labels = t.labels) => s.val - t.val <= bound
+\* CF05a loses whole samples, at most one per (recording thread, detach of the bucket) pair: per series the
+\* missing count dc is within the bound, the missing sum is that of dc samples (each in 0..maxv), no bucket
+\* misses more than dc and the +Inf bucket misses exactly dc
+ValIn(x, n, sfx, L) == CHOOSE v \in {s.val : s \in {t \in UNION {f.samples : f \in {g \in x : g.name = n}} : t.sfx = sfx /\ t.labels = L}} : TRUE
+LossConsistent(m, o, bound, maxv) ==
+  \A f \in {g \in m : g.type \in {"histogram", "summary"}} :
+    \A L \in {s.labels : s \in {t \in f.samples : t.sfx = "count"}} :
+      LET dc == ValIn(m, f.name, "count", L) - ValIn(o, f.name, "count", L)
+          ds == ValIn(m, f.name, "sum", L) - ValIn(o, f.name, "sum", L)
+      IN /\ 0 <= dc /\ dc <= bound
+         /\ 0 <= ds /\ ds <= maxv * dc
+         /\ \A s \in {t \in f.samples : t.sfx = "bucket" /\ {lb \in t.labels : lb[1] # LE} = L} :
+              LET db == s.val - ValIn(o, f.name, "bucket", s.labels) IN
+                /\ 0 <= db /\ db <= dc
+                /\ (<<LE, INF>> \in s.labels) => db = dc
+\* number of histogram series whose final _count is below the number recorded
+ShortSeries(m, o) ==
+  LET Counts(x) == UNION {{<<f.name, s.labels, s.val>> : s \in {y \in f.samples : y.sfx = "count"}} : f \in x}
+  IN Cardinality(Counts(m) \ Counts(o))
 FRender(e) ==
   /\ RenderA /\ NoDupObs(e)
   /\ IF out' = Fams(e) THEN TRUE
-     ELSE e.conc /\ SameBut(out', Fams(e)) /\ LossBounded(out', Fams(e), e.bound) /\ Known("CF05a-free", "count below the number recorded after concurrent drains")
+     ELSE e.conc /\ SameBut(out', Fams(e)) /\ LossConsistent(out', Fams(e), e.bound, e.maxv) /\ Known("CF05a-free", ShortSeries(out', Fams(e)))
 
 P == Rec[l].p
 TraceNext ==
